@@ -883,9 +883,6 @@ func genInsert(r *Rng, sc *ATSchema, taken map[string]bool, o ATGenOpts) *ATStmt
 	useArgs := r.Chance(60)
 	if sc.Auto && r.Chance(70) {
 		st.AutoForm = []byte{'o', 'n', 'o', 'n', 'o', 'n', 'd'}[r.Intn(7)]
-		if st.AutoForm == 'd' {
-			st.Classes = append(st.Classes, "insert_default_keyword")
-		}
 	}
 	for i := 0; i < n; i++ {
 		var row []ATVal
@@ -905,6 +902,10 @@ func genInsert(r *Rng, sc *ATSchema, taken map[string]bool, o ATGenOpts) *ATStmt
 				if sc.isPK(k) && c.Typ == 's' && (row[k].K != 's' || row[k].S == "" || r.Chance(60)) {
 					row[k] = ATVal{K: 's', S: fmt.Sprintf("n%d", 12+r.Intn(40))}
 				}
+			}
+			// a negative key now and then (as a literal the parser delivers it as the negation of a number)
+			if p0 := sc.PK[0]; !sc.Auto && row[p0].K == 'i' && (i+n+len(sc.Cols))%4 == 0 {
+				row[p0].I = -row[p0].I
 			}
 			k := ""
 			for _, p := range sc.PK {
